@@ -754,3 +754,22 @@ fn _unused(_: &dyn ValueTree<Value = u8>) {}
 pub fn arc_ctx(ctx: Ctx) -> Arc<Ctx> {
     Arc::new(ctx)
 }
+
+thread_local! {
+    static THREAD_DIR: RefCell<Option<PathBuf>> = const { RefCell::new(None) };
+}
+
+/// A scratch directory private to the calling thread (created on first use, reused afterwards).
+pub fn thread_dir(ctx: &Ctx) -> PathBuf {
+    THREAD_DIR.with(|slot| {
+        let mut slot = slot.borrow_mut();
+        if let Some(d) = slot.as_ref() {
+            if d.starts_with(&ctx.scratch) || d.exists() {
+                return d.clone();
+            }
+        }
+        let d = ctx.fresh_dir("t");
+        *slot = Some(d.clone());
+        d
+    })
+}
